@@ -38,6 +38,55 @@ def _r1(ctx, f):
     if len(sl) != 1:
         ctx.broken("R1: definition of the slice list %s not found" % slices_var)
     b = pm.match("[%s[M_s:M_e] for M_s, M_e in zip(M_starts, M_ends)]" % kern, sl[0].value)
+    direct = None
+    if b is None:
+        # slices taken directly: kernel[first:first + W] for first in range(0, c * W, W)  (slicing clips at the end)
+        for pat in ("[%s[M_f:M_f + M_w] for M_f in range(0, M_stop, M_w)]", "[%s[M_f:M_w + M_f] for M_f in range(0, M_stop, M_w)]"):
+            direct = direct or pm.match(pat % kern, sl[0].value)
+    if direct is not None:
+        W = U(direct["M_w"])
+        stop = direct["M_stop"]
+        nvars = [a.targets[0].id for a in ast.walk(f.node) if isinstance(a, ast.Assign) and isinstance(a.targets[0], ast.Name)
+                 and U(a.value) == "len(%s)" % kern]
+        cdefs = [a for a in ast.walk(f.node) if isinstance(a, ast.Assign) and isinstance(a.targets[0], ast.Name)
+                 and C.calls_to(a.value, "cpu_count")]
+        wd = C.assigns_to(f.node, W)
+        if len(nvars) != 1 or len(cdefs) != 1 or len(wd) != 1:
+            ctx.unknown("R1", U(sl[0]), f.where(sl[0]), "direct slicing, but n / c / W definitions were not found")
+            return
+        n, c1 = nvars[0], cdefs[0].targets[0].id
+        if U(stop) in (n, "len(%s)" % kern):
+            ctx.node_ok("R1", f, sl[0], "slices = kernel[t:t+W] for t in range(0, n, W): a partition of [0, n) for any W >= 1")
+        elif C.affine(stop) in ({"%s * %s" % (c1, W): 1, 1: 0}, {"%s * %s" % (W, c1): 1, 1: 0}):
+            form = None
+            wv = wd[0].value
+            while True:     # max(k, X) / min(k, X) / int(X) keep X's rounding direction
+                if isinstance(wv, ast.Call) and isinstance(wv.func, ast.Name) and wv.func.id in ("max", "min") and len(wv.args) == 2 \
+                        and any(C.const_num(a) is not None for a in wv.args):
+                    wv = [a for a in wv.args if C.const_num(a) is None][0]
+                elif isinstance(wv, ast.Call) and isinstance(wv.func, ast.Name) and wv.func.id == "int" and len(wv.args) == 1 \
+                        and not any(pm.match(p2, wv) is not None for p2 in CEIL_FORMS + FLOOR_FORMS):
+                    wv = wv.args[0]
+                else:
+                    break
+            for pat in CEIL_FORMS:
+                m = pm.match(pat, wv)
+                if m is not None and U(m["M_n"]) == n and U(m["M_c"]) == c1:
+                    form = pat
+            ctx.judge(form is not None, any(pm.match(p2, wv) is not None for p2 in CEIL_FORMS + FLOOR_FORMS), "R1",
+                      "slices = kernel[t:t+W] for t in range(0, c*W, W) with W = ceil(n/c): covers [0, n)", f.where(wd[0]),
+                      "chunk size %s is not a ceiling form of (n, c): range(0, c*W, W) then stops before the end of the kernel" % U(wd[0].value),
+                      f.qname, "chunk size")
+        else:
+            ctx.unknown("R1", U(sl[0]), f.where(sl[0]), "direct slicing with an unrecognised range bound %s" % U(stop))
+            return
+        args = [k.value for k in p.keywords if k.arg == "args"]
+        tgt = [U(k.value) for k in p.keywords if k.arg == "target"]
+        ok = bool(args) and isinstance(args[0], ast.Tuple) and len(args[0].elts) == 4 and U(args[0].elts[1]) == U(gen.target) \
+            and tgt == ["self._extend_path"]
+        ctx.check(ok, "R1", "one worker per slice: Process(target=_extend_path, args=(shared, slice, graph, offset))", f.where(p),
+                  "workers are not created one per slice with (shared list, that slice, graph, offset)", f.qname, "worker per slice")
+        return
     if b is None:
         ctx.node_bad("R1", f, sl[0], "the worker slices are not kernel[s:e] for (s, e) in zip(starts, ends) over the same "
                      "kernel list the sequential branch iterates")
